@@ -76,9 +76,13 @@ def gen_pair(fggs, rng, mode):
                     for n in s['nodes']:
                         rhs.add_node(n)
                     rhs.ext = s['ext']
-                    for sid, node in s['slots']:
-                        rhs.add_edge(fggs.Edge(rng.choice(ar1), [node], id=sid))
-                    for j in range(rng.choice([0, 1, 1, 2])):
+                    pending = [('nt', sid, node) for sid, node in s['slots']] + [('t', j, None) for j in range(rng.choice([0, 1, 1, 2]))]
+                    rng.shuffle(pending)          # insertion order of the edges differs from the order of their ids
+                    for kind, sid, node in pending:
+                        if kind == 'nt':
+                            rhs.add_edge(fggs.Edge(rng.choice(ar1), [node], id=sid))
+                            continue
+                        j = sid
                         node = rng.choice(s['nodes'])
                         if rng.random() < 0.25 and node.label == A:
                             lab = shared_t
